@@ -362,6 +362,82 @@ def rmkey_history_shard(args):
     return agg
 
 
+def wide_shard(args):
+    """Objects with many fields (sizes around every power of two up to 1024) built as literals and comprehensions, extended by
+    objects that override / hide / show / add a sparse subset: field tables and values against a direct model."""
+    seed, sizes = args
+    rng = random.Random(seed)
+    agg = Agg()
+    ev = Ev(agg)
+    try:
+        for n in sizes:
+            for rep in range(2):
+                names = ["k%04d" % i for i in range(n)]
+                rng.shuffle(names)
+                vis_a = {nm: rng.choice([":", ":", ":", "::", ":::"]) for nm in names}
+                how = rng.choice(["literal", "comprehension", "foldl"])
+                if how == "literal":
+                    A = "{" + ", ".join("%s%s %d" % (nm, vis_a[nm], i) for i, nm in enumerate(names)) + "}"
+                elif how == "comprehension":
+                    vis_a = {nm: ":" for nm in names}
+                    A = "{[kv[0]]: kv[1] for kv in [%s]}" % ", ".join('["%s", %d]' % (nm, i) for i, nm in enumerate(names))
+                else:
+                    vis_a = {nm: ":" for nm in names}
+                    A = "std.foldl(function(o, kv) o + {[kv[0]]: kv[1]}, [%s], {})" % ", ".join('["%s", %d]' % (nm, i) for i, nm in enumerate(names))
+                val = {nm: float(i) for i, nm in enumerate(names)}
+                vis = {nm: (vis_a[nm] != "::") for nm in names}
+                over = rng.sample(names, min(len(names), rng.choice([0, 1, 3, 8])))
+                extra = ["n%02d" % j for j in range(rng.choice([0, 1, 2]))]
+                bfields = []
+                for nm in over + extra:
+                    v = rng.choice([":", ":", "::", ":::"])
+                    plus = nm in val and rng.random() < 0.4
+                    c = rng.randint(1000, 2000)
+                    bfields.append("%s%s%s %d" % (nm, "+" if plus else "", v, c))
+                    val[nm] = val[nm] + c if plus else float(c)
+                    if v == "::":
+                        vis[nm] = False
+                    elif v == ":::":
+                        vis[nm] = True
+                    else:
+                        vis.setdefault(nm, True)
+                rm = rng.choice(names) if names and rng.random() < 0.5 else None
+                X = "(%s + {%s})" % (A, ", ".join(bfields))
+                if rm is not None:
+                    X = 'std.objectRemoveKey(%s, "%s")' % (X, rm)
+                    val.pop(rm)
+                    vis.pop(rm)
+                visible = {k: v for k, v in val.items() if vis[k]}
+                probe = rng.sample(sorted(val), min(5, len(val))) + ["zzz"]
+                src = ("local X = %s; {f: std.objectFields(X), fa: std.objectFieldsAll(X), len: std.length(X), m: X, "
+                       "has: [std.objectHas(X, k) for k in %s], hasall: [std.objectHasAll(X, k) for k in %s], "
+                       "vals: [X[k] for k in std.objectFieldsAll(X)]}") % (X, common.jval(probe), common.jval(probe))
+                r = ev.run(src, walk=1, stack=3000)
+                desc = {"size": n, "built_as": how, "overrides": bfields[:6], "removed": rm, "program": src[:400]}
+                if r.cls == "inconclusive":
+                    continue
+                if r.cls in ("panic", "crash"):
+                    agg.violation(common.panic_signature(r), desc, {"script": r.lines})
+                    continue
+                if r.cls != "value":
+                    agg.violation({"kind": "wide_object_fails", "err": r.kind}, dict(desc, got=r.brief()), {"script": r.lines})
+                    continue
+                v = r.value
+                exp = {"f": sorted(visible), "fa": sorted(val), "len": float(len(visible)), "m": visible,
+                       "has": [k in visible for k in probe], "hasall": [k in val for k in probe], "vals": [val[k] for k in sorted(val)]}
+                bad = [k for k in exp if not same_value(v[k], exp[k], strict_zero=False)]
+                if bad:
+                    agg.violation({"kind": "wide_object_differs_from_model", "what": bad[0]},
+                                  dict(desc, differing=bad, got=repr(v[bad[0]])[:300], expected=repr(exp[bad[0]])[:300]), {"script": r.lines})
+                    continue
+                agg.count("wide_objects_agree")
+                agg.add("wide_object_sizes", n)
+                agg.nontrivial.add(common.h64(src))
+    finally:
+        ev.close()
+    return agg
+
+
 TEMPLATES = [
     # late binding of self at any nesting of extension; super = layers to the left
     ("local A = {a: 1, b: self.a}, B = {a: 2}, C = {a: 3}; [(A + B + C).b, (A + (B + C)).b, ((A + B) + C).b]", [3.0, 3.0, 3.0]),
@@ -421,6 +497,13 @@ def run(tier, seed):
     n5 = 6400 if quick else 400_000
     for a in common.pmap(rmkey_history_shard, [(seed * 1129 + i, n5 // 16) for i in range(16)]):
         total.merge(a)
+    sizes = [0, 1, 2, 3, 4, 5, 7, 8, 9, 15, 16, 17, 31, 32, 33, 63, 64, 65, 100, 127, 128, 129, 255, 256, 257, 511, 512, 513, 1000, 1023, 1024, 1025]
+    if not quick:
+        sizes = sizes * 8 + list(range(0, 300))
+    rngs = random.Random(seed)
+    rngs.shuffle(sizes)
+    for a in common.pmap(wide_shard, [(seed * 1151 + i, sizes[i::16]) for i in range(16)]):
+        total.merge(a)
     for a in common.pmap(templates_shard, [(seed,)]):
         total.merge(a)
     rule = ("chains of 2-5 generated object expressions (self, super.f, super[e], e in super, +:, three visibilities, "
@@ -436,7 +519,8 @@ def run(tier, seed):
             "objectRemoveKey histories: terms over literals / comprehension objects / + / objectRemoveKey (same key removed "
             "repeatedly, removal results on either side of +, shared sub-objects, objects observed before extension) "
             "against the layer-deletion model: manifest, objectFields(All), length, objectHas(All), in, hidden values, "
-            "==, objectValues, objectKeysValues. "
+            "==, objectValues, objectKeysValues; wide objects (0..1025 fields, sizes around every power of two; literal / comprehension / "
+            "fold construction) extended by sparse overriding / hiding / showing / +: layers and optionally a removed key. "
             "distinct_nontrivial = distinct chains / programs / (object, key) pairs fully compared.")
     return common.finish(PROP, tier, seed, total, rule, t0,
                          assumptions=["reference model as in C02", "a field 'does not read' key K iff it still evaluates when K is overridden by a failing field"])
